@@ -6,6 +6,8 @@ import (
 	"sync/atomic"
 
 	"github.com/go-kid/ioc/container"
+	"github.com/go-kid/ioc/container/processors"
+	"github.com/go-kid/ioc/definition"
 	"verifharness/mon"
 )
 
@@ -123,3 +125,35 @@ func (*ZeroCloserC) Naming() string { return "zero-closer-c" }
 func (*ZeroCloserA) Close() error   { return zeroClose("zero-closer-a") }
 func (*ZeroCloserB) Close() error   { return zeroClose("zero-closer-b") }
 func (*ZeroCloserC) Close() error   { return zeroClose("zero-closer-c") }
+
+// Closers that are post-processors at the same time, written like the built-in ones (lazy: used as
+// registered). They hold a resource that App.Close must release like any other closer's.
+type ClosingPP struct {
+	processors.DefaultInstantiationAwareComponentPostProcessor
+	definition.LazyInitComponent
+	Nm   string
+	Seen int
+}
+
+func (p *ClosingPP) Naming() string { return p.Nm }
+func (p *ClosingPP) PostProcessAfterInitialization(c any, name string) (any, error) {
+	p.Seen++
+	return c, nil
+}
+func (p *ClosingPP) Close() error { return zeroClose(p.Nm) }
+
+// ClosingTagPP additionally is a tag-scanning definition-registry post-processor (custom tag "vclose").
+type ClosingTagPP struct {
+	processors.DefaultTagScanDefinitionRegistryPostProcessor
+	processors.DefaultInstantiationAwareComponentPostProcessor
+	Nm string
+}
+
+func NewClosingTagPP(name string) *ClosingTagPP {
+	p := &ClosingTagPP{Nm: name}
+	p.NodeType = "vclose"
+	p.Tag = "vclose"
+	return p
+}
+func (p *ClosingTagPP) Naming() string { return p.Nm }
+func (p *ClosingTagPP) Close() error   { return zeroClose(p.Nm) }
